@@ -182,6 +182,31 @@ def interleaved_parses(res, rng, kinds=('v2', 'v2'), prefix='c02'):
             return
 
 
+def deferred_parses(res, rng):
+    """Two parses requested on ONE parser object (the same tables) before either generator is advanced, then consumed
+    in turn: after each dump is exhausted the tables are that dump's thread map."""
+    from pykdebugparser.kd_buf_parser import KdBufParser
+    from pykdebugparser.pykdebugparser import PyKdebugParser
+    fa = gen.gen_v2(rng, first_nonzero=True, m=rng.choice((0, 1, 5)))
+    fb = gen.gen_v2(rng, first_nonzero=True, m=rng.choice((0, 1, 5)))
+    top = rng.random() < 0.5
+    p = PyKdebugParser() if top else KdBufParser({}, {})
+    try:
+        ga, gb = [(p.kevents(io.BytesIO(f['data'])) if top else p.parse(io.BytesIO(f['data']))) for f in (fa, fb)]
+        for f, g in ((fa, ga), (fb, gb)):
+            n = sum(1 for _ in g)
+            want = wire.threadmap_model(f['entries'])
+            res.count('deferred_parses_checked')
+            if n != len(f['records']) or (dict(p.threads_pids), dict(p.pids_names)) != want:
+                res.violation('c02-tables-of-deferred-parse', f'two parses requested up front on one {type(p).__name__}, consumed '
+                              f'in turn: after dump {"AB"[f is fb]} ({n} events of {len(f["records"])}) the tables hold '
+                              f'{len(p.threads_pids)} threads / {len(p.pids_names)} processes, its thread map declares '
+                              f'{len(want[0])} / {len(want[1])}', {'files': [fa['data'], fb['data']]})
+                return
+    except Exception as x:
+        res.violation(f'c02-deferred-raises-{core.exc_name(x)}', f'{x!r}', {'files': [fa['data'], fb['data']]})
+
+
 def run(ctx):
     res = core.Result()
     rng = ctx.rng
@@ -245,6 +270,7 @@ def run(ctx):
                 one_history(res, rng, [f], 'top')
                 res.count('zero_leading_first_record_files')
         for _ in range(ctx.pick(12, 300)):
+            deferred_parses(res, rng)
             interleaved_parses(res, rng, rng.choice((('v2', 'v2'), ('v2', 'v3'), ('v3', 'v3'), ('v2', 'v2', 'v3'))))
         # large dumps: record counts beyond 8- and 16-bit limits, thread maps of hundreds of entries
         for m in ctx.pick((300, 5000), (70000, 300, 66000)):
@@ -276,6 +302,7 @@ def run(ctx):
     res.require('histories_with_reuse', 1)
     res.require('related_map_histories', 10)
     res.require('interleaved_parses', 10)
+    res.require('deferred_parses_checked', 10)
     res.require('contract_evaluations', 1)
     return res
 
